@@ -67,6 +67,7 @@ type FuncGen struct {
 	blockOrder map[*ssa.BasicBlock]int
 	invAssumed map[string]bool
 	invTouched map[string]touched
+	returns    []retEdge
 }
 
 type touched struct {
@@ -750,6 +751,7 @@ func (fg *FuncGen) run() {
 			}
 		}
 	}
+	fg.finishReturns()
 }
 
 func (fg *FuncGen) namedBool(prefix, term string) string {
